@@ -114,6 +114,9 @@ func c03Run(c c03Case, st *vstat.Stats) error {
 	}
 	nt := model.Valid && !model.Results[0].Success && failedAfterWrite
 	raw, _ := json.Marshal(c)
+	if len(c.Block.Txs) == 1 && c.Block.Txs[0].Actor != nil {
+		labels = append(labels, "sponsored-tx(actor!=sponsor)")
+	}
 	st.Case(nt, string(raw), labels...)
 	st.Sample(nt, map[string]any{"tx": spec, "fee": fee, "labels": labels})
 
@@ -221,6 +224,12 @@ func c03Gen(rt *rapid.T) c03Case {
 	lo := (b.Time + 999) / 1000
 	tx := fixture.TxSpec{Sponsor: sp, AuthStart: -1, AuthEnd: -1, Expiry: 1000 * lo, MaxFee: ^uint64(0),
 		AuthCompute: rapid.SampledFrom([]uint64{0, 1, 5}).Draw(rt, "authcompute")}
+	if rapid.IntRange(0, 2).Draw(rt, "sponsored") == 0 {
+		// sponsored tx: the fee is the sponsor's, the actions run for the actor
+		if ac := rapid.IntRange(0, nSponsors+1).Draw(rt, "actor"); ac != sp {
+			tx.Actor = &ac
+		}
+	}
 	na := rapid.IntRange(1, int(b.Rules.MaxActions)).Draw(rt, "nactions")
 	failing := -1
 	if rapid.IntRange(0, 2).Draw(rt, "hasFail") != 0 {
